@@ -38,6 +38,8 @@ SHAPES = {
     # names on which os.path / pathlib / splitext / shell-like handling could disagree
     "DX": [["a.tar.gz"], ["-dash"], ["x.torrent"], ["trailing.dot."], ["%41 #frag?q=1&r"], ["[br]{ace}", "semi;colon"],
            ["~tilde"], ["..two-dots"], ["sub.d", "...x"], ["sub.d", "CON"]],
+    "DW": [["w%03d" % k] if k % 5 else ["grp%d" % (k // 50), "w%03d" % k] for k in range(200)],    # hundreds of files
+    "DDEEP": [["n%d" % d for d in range(40)] + ["leaf.bin"], ["n%d" % d for d in range(20)] + ["mid.bin"], ["top.bin"]],
     "DM": [["m%02d" % k] if k % 3 else ["g%d" % (k // 3), "m%02d" % k] for k in range(14)],   # many files
 }
 
@@ -90,10 +92,17 @@ def gen_trees(tier, rng, plens, quick_n, thorough_n, need_nonempty=True):
         deltas = (-1, 0, 1, B + 1) if tier == "thorough" else (rng.choice((-1, 0, 1, B + 1)),)
         for dl in deltas:
             out.append((rng.choice(("S1", "D1")), (npc * P0 + dl,), P0))
+    # hundreds to a thousand pieces, hundreds of files, deep nesting
+    for npc in ((257, 1025) if tier != "thorough" else (257, 513, 600, 1025, 2047)):
+        out.append(("S1" if npc % 2 else "D1", (npc * P0 + (npc % 3) - 1,), P0))
+    small = [0, 1, 2, 3, 5, B - 1, B, B + 1]
+    out.append(("DW", tuple(rng.choice(small) if k % 7 else rng.choice(alphabet(P0)) for k in range(200)), P0))
+    out.append(("DDEEP", (P0 + 1, 2 * P0, 5), P0))
     # large piece lengths (what the automatic choice gives for big payloads)
     M = 2 ** 20
     for Pbig, szs in ((2 * M, (3 * M,)), (2 * M, (2 * M + 1, 5)), (M, (M + 5, 3)), (4 * M, (5 * M + 1,)),
-                      (8 * M, (M + 7, 9 * M + 3, 100 * 1024))):      # a piece reaching > 4 MiB into the next file
+                      (8 * M, (M + 7, 9 * M + 3, 100 * 1024)),      # a piece reaching > 4 MiB into the next file
+                      (64 * M, (M + 7, 5))):                         # > 32 MiB of padding after a file (hybrid / align)
         out.append(({1: "S1", 2: "D2", 3: "D3"}[len(szs)], szs, Pbig))
     n = thorough_n if tier == "thorough" else quick_n
     shapes = ["D3", "D4", "D2n", "D2", "DN", "DNf", "DC", "DU", "D5", "DNFC", "DS", "DL", "DM", "DX"]
